@@ -349,8 +349,13 @@ func (s *streamGRPC) decompress(dst *bytes.Buffer, b []byte) error {
 	if err != nil {
 		return err
 	}
-	if _, err := dst.ReadFrom(r); err != nil {
+	// Read at most one byte past the limit: enough to notice an oversized message.
+	limit := int64(s.opts.maxReceiveMessageSize) + 1
+	if _, err := dst.ReadFrom(io.LimitReader(r, limit)); err != nil {
 		return err
+	}
+	if dst.Len() > s.opts.maxReceiveMessageSize {
+		return fmt.Errorf("grpc: received message after decompression larger than max (%d vs. %d)", dst.Len(), s.opts.maxReceiveMessageSize)
 	}
 	return nil
 }
